@@ -109,6 +109,10 @@ def lab(v):
     if isinstance(v, Opaque):
         return v.label
     if isinstance(v, Const):
+        if v.kind == "fn":
+            return ("fn", v.v.get("resolved") or v.v["def"])
+        if v.kind == "bytes":
+            return ("const", "bytes", repr(v.v))
         return ("const", v.kind, v.v)
     if isinstance(v, Ref):
         return lab(v.cell.val)
@@ -930,6 +934,34 @@ class Machine(object):
                 return finish(r)
             # undecided: pure opaque value (its variant is forked on when it is matched)
             return finish(Opaque(("call", name, tuple(lab(a) for a in args)), t["dest"]["ty"]))
+        if d in ("std::option::Option::<T>::map", "std::option::Option::<T>::and_then"):
+            ov = deref_val(args[0])
+            mode = "option_" + d.rsplit("::", 1)[1]
+            if isinstance(ov, Opaque):
+                # fork on presence
+                s2 = copy.deepcopy(st)
+                d2 = self.find_copied_cell(st, s2, dest)
+                d2.val = AdtVal("std::option::Option", 0, {}, None, "None")
+                s2.conds.append((("variant", ov.label), "None"))
+                s2.frames[-1].bb = target
+                st.conds.append((("variant", ov.label), "Some"))
+                payload = Opaque(join_label(ov.label, "Some.0"))
+                fr.bb = target
+                nf = Frame(("<native>", mode), 0)
+                nf.locals = [Cell(payload), dest, Cell(args[1])]
+                nf.data = {"kinds": ["sink"], "idx": 0, "target": target, "mode": mode, "loc": loc(t), "src": ov.label, "quiet": True}
+                st.frames.append(nf)
+                self.native_advance(st, nf)
+                return [s2]
+            if isinstance(ov, AdtVal) and ov.variant == 0:
+                return finish(AdtVal("std::option::Option", 0, {}, None, "None"))
+            if isinstance(ov, AdtVal) and ov.variant == 1:
+                fr.bb = target
+                nf = Frame(("<native>", mode), 0)
+                nf.locals = [Cell(self.field_cell(ov, 0, None, None).val), dest, Cell(args[1])]
+                nf.data = {"kinds": ["sink"], "idx": 0, "target": target, "mode": mode, "loc": loc(t), "src": lab(ov), "quiet": True}
+                st.frames.append(nf)
+                return self.native_advance(st, nf)
         if d in ADAPTORS:
             kind = ADAPTORS[d]
             fields = {0: Cell(args[0])}
@@ -1041,7 +1073,8 @@ class Machine(object):
     def native_finish(self, st, nf, value):
         st.frames.pop()
         nf.locals[1].val = value
-        st.effects.append(("iterate_end", nf.data["mode"], nf.data["src"], nf.data["loc"]))
+        if not nf.data.get("quiet"):
+            st.effects.append(("iterate_end", nf.data["mode"], nf.data["src"], nf.data["loc"]))
         return None
 
     def native_advance(self, st, nf):
@@ -1085,6 +1118,8 @@ class Machine(object):
         if kind == "sink":
             if d["mode"] == "for_each":
                 return self.native_finish(st, nf, Const("unit", None))
+            if d["mode"] == "option_map":
+                return self.native_finish(st, nf, AdtVal("std::option::Option", 1, {0: Cell(ret)}, None, "Some"))
             return self.native_finish(st, nf, ret)
         if kind == "map":
             nf.locals[0].val = ret
